@@ -1002,7 +1002,7 @@ Definition l_item_lref (s : lstate) (l : Z) (l2 : option Z) : option lstate :=
 Lemma item_lref st mn items n l l2 d s s' rest : in_mod st mn items -> lrel st s ->
   l_item_lref s l l2 = Some s' ->
   exists st', item_done st st' mn items (ItLref n l l2 d) s'
-    /\ forall F, (5 <= F)%nat -> scan_stmt F st (tk_item (ItLref n l l2 d) ++ rest) = SNext st' rest.
+    /\ forall F, (length (lref_ops l l2 d) + 2 <= F)%nat -> scan_stmt F st (tk_item (ItLref n l l2 d) ++ rest) = SNext st' rest.
 Proof.
   intros Hin Hrel Hl. destruct Hin as [Hm Hf].
   assert (Etk : tk_item (ItLref n l l2 d) ++ rest
@@ -1022,8 +1022,7 @@ Proof.
   pose proof (in_mod_core st st1 mn items Hc (conj Hm Hf)) as Hin1.
   exists (add_to st1 mn items (ItLref n l l2 d)). split.
   - destruct Hc as (C1 & C2 & C3). split; [cbn; congruence|]. split; [split; reflexivity | now apply lrel_add_to].
-  - intros F HF. rewrite Etk. rewrite E.
-    2:{ unfold lref_ops. destruct l2, (d =? 0); cbn [length app]; lia. }
+  - intros F HF. rewrite Etk. rewrite E by exact HF.
     unfold stmt_exec, pops, lref_ops.
     destruct l2 as [x|]; destruct (Z.eqb_spec d 0) as [->|Hd]; cbn [map tnorm_op app];
       rewrite ?(add_named_in st1 mn items n (fun y => ItLref y l (Some x) 0) Hin1),
@@ -1481,4 +1480,220 @@ Proof.
       rewrite D2. do 3 f_equal. unfold close_func, fs_set_insns, tnorm_func, fs3, fs2, fs1, set_vars.
       cbn [fs_name fs_vararg fs_res fs_args fs_locals fs_globals fs_insns map rev app].
       rewrite !app_nil_r, !rev_involutive. reflexivity.
+Qed.
+
+(* ---------------------------------------------------------------- items, modules, contexts *)
+
+Definition dmod (items : list item) (x : name) : bool := existsb (fun it => name_is x (item_name it)) items.
+Definition dfun (items : list item) (x : name) : bool :=
+  existsb (fun it => match it with ItFunc f => bytes_eqb (f_name f) x | _ => false end) items.
+
+Lemma declared_in_mod st mn items : in_mod st mn items ->
+  (forall x, declared (as_rstate st) x = dmod items x) /\ (forall x, declared_func (as_rstate st) x = dfun items x).
+Proof.
+  intros [Hm Hf]. split; intros x; unfold declared, declared_func, as_rstate, dmod, dfun; cbn; rewrite Hm, ?Hf;
+    [apply orb_false_r | reflexivity].
+Qed.
+
+Definition titem_ok (items : list item) (it : item) : Prop :=
+  match it with
+  | ItBss _ len => 0 <= len < 2 ^ 63
+  | ItRef _ r _ => dmod items r = true
+  | ItExpr _ f => dmod items f = true /\ dfun items f = true
+  | ItData _ t els => data_type t = true /\ Forall (el_ok t) els
+  | ItProto _ _ res args => sig_ok res args
+  | ItFunc f => func_ok items f
+  | _ => True
+  end.
+
+Definition l_item (s : lstate) (it : item) : option lstate :=
+  match it with
+  | ItLref _ l l2 _ => l_item_lref s l l2
+  | ItFunc f => l_insns s (f_insns f)
+  | _ => Some s
+  end.
+
+Lemma sep_toks_len2 {A} (tk : A -> list ttok) (els : list A) :
+  (forall a, 1 <= length (tk a))%nat -> (2 * length els <= length (sep_toks tk els) + 1)%nat.
+Proof.
+  intros H. induction els as [|e els IH]; [cbn; lia|]. destruct els as [|e2 els'].
+  - rewrite sep_toks_one. specialize (H e). cbn [length]. lia.
+  - rewrite sep_toks_cons2, app_length. specialize (H e). cbn [length] in *. lia.
+Qed.
+
+Lemma step_to_reach st toks rest st' c :
+  (c <= length toks + 1)%nat -> (0 < length toks)%nat ->
+  (forall F, (c <= F)%nat -> scan_stmt F st (toks ++ rest) = SNext st' rest) ->
+  sreaches st (toks ++ rest) st' rest.
+Proof.
+  intros Hc Hne H. apply sreaches_step; [assumption|]. intros F HF. apply H. rewrite app_length in HF. lia.
+Qed.
+
+Lemma item_reaches st mn items it s s' rest :
+  in_mod st mn items -> lrel st s -> titem_ok items it -> l_item s it = Some s' ->
+  exists st', sreaches st (tk_item it ++ rest) st' rest /\ item_done st st' mn items (tnorm_item it) s'.
+Proof.
+  intros Hin Hrel Hok Hl.
+  destruct (declared_in_mod st mn items Hin) as [Hd Hdf].
+  destruct it as [x|x|x|x len|x t els|x r d|x l l2 d|x f|x va res args|f]; cbn [titem_ok l_item tnorm_item] in *.
+  - inversion Hl; subst s'. destruct (item_import st mn items x s rest Hin Hrel) as (st' & Hdone & Hstep).
+    exists st'. split; [|assumption]. apply (step_to_reach st _ rest st' 3); [cbn; lia | cbn; lia | exact Hstep].
+  - inversion Hl; subst s'. destruct (item_export st mn items x s rest Hin Hrel) as (st' & Hdone & Hstep).
+    exists st'. split; [|assumption]. apply (step_to_reach st _ rest st' 3); [cbn; lia | cbn; lia | exact Hstep].
+  - inversion Hl; subst s'. destruct (item_forward st mn items x s rest Hin Hrel) as (st' & Hdone & Hstep).
+    exists st'. split; [|assumption]. apply (step_to_reach st _ rest st' 3); [cbn; lia | cbn; lia | exact Hstep].
+  - inversion Hl; subst s'. destruct (item_bss st mn items x len s rest Hin Hrel Hok) as (st' & Hdone & Hstep).
+    exists st'. split; [|assumption]. apply (step_to_reach st _ rest st' 3); [ | | exact Hstep];
+      cbn [tk_item]; rewrite app_length; cbn [length]; lia.
+  - inversion Hl; subst s'. destruct Hok as [Ht Hels].
+    destruct (item_data st mn items x t els s rest Hin Hrel Ht Hels) as (st' & Hdone & Hstep).
+    exists st'. split; [|assumption]. apply (step_to_reach st _ rest st' (length els + 2)); [ | | exact Hstep];
+      cbn [tk_item]; rewrite !app_length; cbn [length];
+      pose proof (sep_toks_len2 (tk_el t) els ltac:(intros a; destruct t; try discriminate; cbn; lia)); lia.
+  - inversion Hl; subst s'. destruct (item_ref st mn items x r d s rest Hin Hrel ltac:(now rewrite Hd)) as (st' & Hdone & Hstep).
+    exists st'. split; [|assumption]. apply (step_to_reach st _ rest st' 4); [ | | exact Hstep];
+      cbn [tk_item]; rewrite app_length; cbn [length]; lia.
+  - destruct (item_lref st mn items x l l2 d s s' rest Hin Hrel Hl) as (st' & Hdone & Hstep).
+    exists st'. split; [|assumption]. apply (step_to_reach st _ rest st' (length (lref_ops l l2 d) + 2)); [ | | exact Hstep];
+      cbn [tk_item]; unfold lref_ops; rewrite !app_length; cbn [length]; destruct l2, (d =? 0); cbn [length app]; lia.
+  - inversion Hl; subst s'. destruct Hok as [H1 H2].
+    destruct (item_expr st mn items x f s rest Hin Hrel ltac:(now rewrite Hd) ltac:(now rewrite Hdf)) as (st' & Hdone & Hstep).
+    exists st'. split; [|assumption]. apply (step_to_reach st _ rest st' 4); [ | | exact Hstep];
+      cbn [tk_item]; rewrite app_length; cbn [length]; lia.
+  - inversion Hl; subst s'. destruct (item_proto st mn items x va res args s rest Hin Hrel Hok) as (st' & Hdone & Hstep).
+    exists st'. split; [|assumption].
+    assert (Hlen : (length (sig_els res args) <= length (tk_proto_tail va res args))%nat).
+    { unfold tk_proto_tail. rewrite !app_length. cbn [length].
+      pose proof (sep_toks_len2 tk_sigel (sig_els res args)
+                    ltac:(intros a; destruct (tk_sigel_head a) as (t0 & r0 & -> & _); cbn; lia)) as H2.
+      unfold sig_els in *. lia. }
+    apply (step_to_reach st _ rest st' (length (sig_els res args) + 4)).
+    + cbn [tk_item]. rewrite app_length. cbn [length]. lia.
+    + cbn [tk_item]. rewrite app_length. cbn [length]. lia.
+    + intros F HF. apply Hstep. lia.
+  - exact (item_func st mn items f s s' rest Hin Hrel Hok Hl).
+Qed.
+
+Fixpoint titems_ok (acc : list item) (its : list item) : Prop :=
+  match its with
+  | [] => True
+  | it :: r => titem_ok acc it /\ titems_ok (tnorm_item it :: acc) r
+  end.
+
+Fixpoint l_items (s : lstate) (its : list item) : option lstate :=
+  match its with
+  | [] => Some s
+  | it :: r => match l_item s it with Some s1 => l_items s1 r | None => None end
+  end.
+
+Lemma items_reach mn rest : forall its acc st s s',
+  in_mod st mn acc -> lrel st s -> titems_ok acc its -> l_items s its = Some s' ->
+  exists st', sreaches st (flat_map tk_item its ++ rest) st' rest
+    /\ ss_mods st' = ss_mods st /\ in_mod st' mn (rev (map tnorm_item its) ++ acc) /\ lrel st' s'.
+Proof.
+  induction its as [|it its IH]; intros acc st s s' Hin Hrel Hok Hl.
+  - cbn in Hl. inversion Hl; subst s'. exists st. split; [apply sreaches_refl|]. split; [reflexivity|]. split; [exact Hin | exact Hrel].
+  - cbn [titems_ok l_items] in Hok, Hl. destruct Hok as [Hit Hits].
+    destruct (l_item s it) as [s1|] eqn:El; [|discriminate].
+    destruct (item_reaches st mn acc it s s1 (flat_map tk_item its ++ rest) Hin Hrel Hit El) as (st1 & Hre1 & M1 & Hin1 & Hr1).
+    destruct (IH (tnorm_item it :: acc) st1 s1 s' Hin1 Hr1 Hits Hl) as (st2 & Hre2 & M2 & Hin2 & Hr2).
+    exists st2. split; [|split; [congruence|split; [|assumption]]].
+    + cbn [flat_map]. rewrite <- app_assoc. eapply sreaches_trans; eassumption.
+    + cbn [map rev]. rewrite <- app_assoc. exact Hin2.
+Qed.
+
+Definition at_top (st : sstate) : Prop := ss_mod st = None /\ ss_func st = None.
+
+Definition l_module (s : lstate) (m : module) : option lstate := l_items (mkL [] [] (l_next s)) (mod_items m).
+
+Lemma stmt_module st mname s rest : at_top st -> lrel st s ->
+  exists st', ss_mods st' = ss_mods st /\ in_mod st' mname [] /\ lrel st' (mkL [] [] (l_next s))
+    /\ forall F, (3 <= F)%nat -> scan_stmt F st (TName mname :: TCol :: TName (str "module") :: TNL :: rest) = SNext st' rest.
+Proof.
+  intros [Hm Hf] [Hinv Hn].
+  exists (mkSstate (ss_mods st) (Some (mname, [])) (ss_func st) [] (ss_next st)).
+  split; [reflexivity|]. split; [split; [reflexivity | exact Hf]|]. split.
+  - split; [constructor; cbn; [reflexivity | constructor | constructor | intros l []] | exact Hn].
+  - intros F HF. rewrite scan_stmt_name. unfold scan_body.
+    rewrite parse_labels_named by (try exact I; lia).
+    assert (Hkd : stmt_kind (str "module") = Some KModule) by reflexivity. rewrite Hkd.
+    cbn [label_count_bad length Nat.eqb negb is_var andb].
+    destruct F as [|F']; [lia|]. cbn [parse_ops rev]. unfold stmt_exec. rewrite Hm. reflexivity.
+Qed.
+
+Lemma stmt_endmodule st mn items s rest : in_mod st mn items -> lrel st s ->
+  exists st', ss_mods st' = mkModule mn (rev items) :: ss_mods st /\ at_top st' /\ lrel st' s
+    /\ forall F, (2 <= F)%nat -> scan_stmt F st (TName (str "endmodule") :: TNL :: rest) = SNext st' rest.
+Proof.
+  intros [Hm Hf] [[T1 T2 T3 T4] Hn].
+  exists (mkSstate (mkModule mn (rev items) :: ss_mods st) None (ss_func st) (ss_labels st) (ss_next st)).
+  split; [reflexivity|]. split; [split; [reflexivity | exact Hf]|]. split.
+  - split; [constructor; assumption | exact Hn].
+  - intros F HF. rewrite scan_stmt_name. unfold scan_body.
+    rewrite parse_labels_kw by (try discriminate; lia).
+    assert (Hkd : stmt_kind (str "endmodule") = Some KEndmodule) by reflexivity. rewrite Hkd.
+    cbn [label_count_bad length Nat.eqb negb is_var andb].
+    destruct F as [|F']; [lia|]. cbn [parse_ops rev]. unfold stmt_exec. rewrite Hm. reflexivity.
+Qed.
+
+Definition tmodule_ok (m : module) : Prop := titems_ok [] (mod_items m).
+
+Lemma module_reach st m s s' rest : at_top st -> lrel st s -> tmodule_ok m -> l_module s m = Some s' ->
+  exists st', sreaches st (tk_module m ++ rest) st' rest
+    /\ ss_mods st' = tnorm_module m :: ss_mods st /\ at_top st' /\ lrel st' s'.
+Proof.
+  intros Htop Hrel Hok Hl. unfold tk_module. rewrite <- !app_assoc. cbn [app].
+  destruct (stmt_module st (mod_name m) s (flat_map tk_item (mod_items m) ++ TName (str "endmodule") :: TNL :: rest) Htop Hrel)
+    as (st1 & M1 & Hin1 & Hr1 & Hstep1).
+  destruct (items_reach (mod_name m) (TName (str "endmodule") :: TNL :: rest) (mod_items m) [] st1 _ s' Hin1 Hr1 Hok Hl)
+    as (st2 & Hre2 & M2 & Hin2 & Hr2).
+  rewrite app_nil_r in Hin2.
+  destruct (stmt_endmodule st2 (mod_name m) (rev (map tnorm_item (mod_items m))) s' rest Hin2 Hr2) as (st3 & M3 & Htop3 & Hr3 & Hstep3).
+  exists st3. split; [|split; [|split; assumption]].
+  - eapply sreaches_trans.
+    { apply (step_to_reach st [TName (mod_name m); TCol; TName (str "module"); TNL] _ st1 3); [cbn; lia | cbn; lia | exact Hstep1]. }
+    eapply sreaches_trans; [exact Hre2|].
+    apply (step_to_reach st2 [TName (str "endmodule"); TNL] rest st3 2); [cbn; lia | cbn; lia | exact Hstep3].
+  - rewrite M3, rev_involutive, M2, M1. reflexivity.
+Qed.
+
+Fixpoint l_ctx (s : lstate) (ms : list module) : option lstate :=
+  match ms with
+  | [] => Some s
+  | m :: r => match l_module s m with Some s1 => l_ctx s1 r | None => None end
+  end.
+
+Lemma ctx_reach rest : forall ms st s s',
+  at_top st -> lrel st s -> Forall tmodule_ok ms -> l_ctx s ms = Some s' ->
+  exists st', sreaches st (tk_ctx ms ++ rest) st' rest
+    /\ ss_mods st' = rev (map tnorm_module ms) ++ ss_mods st /\ at_top st' /\ lrel st' s'.
+Proof.
+  induction ms as [|m ms IH]; intros st s s' Htop Hrel Hok Hl.
+  - cbn in Hl. inversion Hl; subst s'. exists st. split; [apply sreaches_refl|]. split; [reflexivity|]. split; [exact Htop | exact Hrel].
+  - cbn [l_ctx] in Hl. destruct (l_module s m) as [s1|] eqn:Em; [|discriminate].
+    pose proof (Forall_inv Hok) as Hm. pose proof (Forall_inv_tail Hok) as Hms.
+    destruct (module_reach st m s s1 (tk_ctx ms ++ rest) Htop Hrel Hm Em) as (st1 & Hre1 & M1 & Htop1 & Hr1).
+    destruct (IH st1 s1 s' Htop1 Hr1 Hms Hl) as (st2 & Hre2 & M2 & Htop2 & Hr2).
+    exists st2. split; [|split; [|split; assumption]].
+    + unfold tk_ctx. cbn [flat_map]. fold (tk_ctx ms). rewrite <- app_assoc. eapply sreaches_trans; eassumption.
+    + rewrite M2, M1. cbn [map rev]. rewrite <- app_assoc. reflexivity.
+Qed.
+
+(* labels are numbered in order of first occurrence, starting from a fresh context *)
+Definition canon_labels (ms : list module) : Prop := l_ctx (mkL [] [] 0) ms <> None.
+
+Definition wf_text_tokens (ms : list module) : Prop := Forall tmodule_ok ms /\ canon_labels ms.
+
+(* the statement parser inverts the printer on token level *)
+Lemma scan_loop_tk_ctx ms : wf_text_tokens ms ->
+  scan_loop (S (S (length (tk_ctx ms ++ [TEOF])))) sinit (tk_ctx ms ++ [TEOF]) = Ok (map tnorm_module ms).
+Proof.
+  intros [Hok Hcan]. unfold canon_labels in Hcan.
+  destruct (l_ctx (mkL [] [] 0) ms) as [s'|] eqn:El; [|congruence].
+  assert (Hrel0 : lrel sinit (mkL [] [] 0)).
+  { split; [constructor; cbn; [reflexivity | constructor | constructor | intros l []] | reflexivity]. }
+  destruct (ctx_reach [TEOF] ms sinit _ s' (conj eq_refl eq_refl) Hrel0 Hok El) as (st' & Hre & M & [Ht1 Ht2] & Hr).
+  destruct (Hre (S (S (length (tk_ctx ms ++ [TEOF])))) ltac:(lia)) as (f' & Hf' & E).
+  rewrite E. destruct f' as [|f']; [cbn in Hf'; lia|].
+  cbn [scan_loop scan_stmt skip_nl]. rewrite Ht1, Ht2, M. cbn [ss_mods sinit]. rewrite app_nil_r, rev_involutive. reflexivity.
 Qed.
